@@ -398,6 +398,12 @@ def gen_cases(props, tier, seed):
                ['x%02d' % i for i in range(11)] + ['y11', 'x12']):
         cases.append((ex, 0, 0, None))
         cases.append((ex, 1, 0, None))
+    # the same sequence of characters with runs of different lengths, longer runs first (and every other order):
+    # the fixed-character fold must widen downwards as well as upwards
+    for ex in (['aab', 'ab'], ['aaab', 'aab', 'ab'], ['xyyy', 'xy', 'xyy'], ['ab--c', 'ab-c', 'ab---c'], ['110', '10', '1110']):
+        for perm in itertools.permutations(ex):
+            cases.append((list(perm), 0, 0, None))
+            cases.append((list(perm), 7, 0, None))
     # nothing to extract from (no example survives cleaning): early-return paths, also with a seed
     degenerate = [[], [''], ['', ' '], [' ']]
     base = degenerate + base
